@@ -1,6 +1,7 @@
 import DmrVerif.Driver.Loop
 import DmrVerif.Driver.Pdu
+import DmrVerif.Driver.TranslCsbk
 
-/-! model driver for property C03 -/
+/-! model driver for property C03 (`t.cs.*`: `CSBK` translated from the source, `Gen/TranslCsbk.lean`) -/
 
-def main : IO Unit := Dmr.Driver.runMain [Dmr.Driver.pduOp, Dmr.Driver.pduArgsOp]
+def main : IO Unit := Dmr.Driver.runMain [Dmr.Driver.pduOp, Dmr.Driver.pduArgsOp, Dmr.Driver.translCsbkOp]
